@@ -262,6 +262,7 @@ func (ex *Exec) havocKeys(st State, keys map[string]bool, why string) State {
 			continue
 		}
 		n[k] = ex.vc.fresh("hv_"+shortKey(k), so)
+		ex.heapAllocatedBefore(n[k], ex.nLoc)
 	}
 	return State{n}
 }
@@ -1150,6 +1151,7 @@ func (ex *Exec) loopHead(fr *Frame, li *loopInfo, pc Term, st State) (Term, Stat
 			continue
 		}
 		nm[k] = ex.vc.fresh("lh_"+shortKey(k), so)
+		ex.heapAllocatedBefore(nm[k], ex.nLoc)
 	}
 	var lallocs []*ssa.Alloc
 	for al := range locals {
